@@ -12,7 +12,7 @@
                              bit 2 = the implementation's run violates the property (sub = one of the
                                        fixed ids below, the harness attaches the signature strings). *)
 From Coq Require Import List NArith Bool.
-From AG Require Import Gen.Params Model.Pool Model.PoolSpec Model.Votor Model.Node Oracle.PoolRun Oracle.VotorRun.
+From AG Require Import Gen.Params Model.Timers Model.Pool Model.PoolSpec Model.Votor Model.Node Oracle.PoolRun Oracle.VotorRun.
 Import ListNotations.
 Open Scope N_scope.
 
@@ -48,13 +48,11 @@ Record run := mkRun {
   r_blocks : list (blockid * blockid * vidx);   (* every block proposed: id, parent, proposer *)
   r_traces : list (vidx * list nstep) }.        (* one per correct validator *)
 
-(* ---------- timing constants (src/consensus.rs; DELTA_BLOCK / DELTA_TIMEOUT / DELTA_FIRST_SLICE are private
-   there and mirrored here and in harness/src/sim.rs) ---------- *)
-Definition D_BLOCK : N := 400.
-Definition D_FIRST : N := 10.
-Definition D_TIMEOUT : N := 3 * DELTA_MS.
+(* ---------- timing (Model/Timers.v): D_BLOCK / D_FIRST mirror the private DELTA_BLOCK / DELTA_FIRST_SLICE of
+   src/consensus.rs; the timeout schedule itself is MEASURED from the real timer task on every run (Gen/Params.v
+   TIMER_CRASHED_MS / TIMER_SLOT_MS) and the simulation arms its timers at the measured offsets ---------- *)
 (* all timers of a window have fired this long after set_timeouts *)
-Definition D_WINDOW_TIMERS : N := D_TIMEOUT + D_FIRST + (D_BLOCK - D_FIRST) + (SLOTS_PER_WINDOW - 1) * D_BLOCK.
+Definition D_WINDOW_TIMERS : N := window_timers_done.
 
 (* ---------- per-node correspondence ---------- *)
 Definition woken (e : pevent) : bool := match e with EWaiterWoken _ _ => true | _ => false end.
